@@ -137,7 +137,13 @@ def _convert(a, new_dtype, **k):
     if nd == np.bool_:
         return ew(zx.to_bool, a)
     if np.issubdtype(nd, np.integer):
-        return ew(zx.to_int, a)
+        bits = nd.itemsize * 8
+        out = ew(zx.to_int_trunc, a)
+        if bits < 32:
+            # narrow integer types wrap (uint8: mod 256; int8/int16: two's complement); int32/int64 are modelled as Z
+            lo, hi = (0, 2 ** bits - 1) if nd.kind == "u" else (-2 ** (bits - 1), 2 ** (bits - 1) - 1)
+            out = ew(lambda x: zx.wrap_int(x, lo, hi), out)
+        return out
     if np.issubdtype(nd, np.floating):
         return ew(zx.to_real, a)
     raise Unsupported(f"convert to {nd}")
